@@ -27,6 +27,8 @@ func checkC08(c *Ctx) {
 	c.useRules(ruleP6)
 	// a delivery at QoS 1/2 is registered before it counts as sent: the registration refuses nothing that needs an acknowledgement
 	c.waitAcceptsRequests()
+	// retained messages are delivered by the processor itself, from the connection's scratch list, before the next packet is handled
+	c.noGoroutineFromHandler()
 	c.retainedInsertStores()
 	c.retainedIsDeepCopy()
 	c.endOfLevelsSignal()
